@@ -14,8 +14,10 @@ Definition char_load_body : string := "super().load(path) ; if (self.before or s
     self.reducible.pop()"%string.
 Definition DEFAULT_CUT_AFTER : list N := [63; 61; 59; 123; 91; 10]%N.
 Definition DEFAULT_CUT_BEFORE : list N := [93; 125; 58]%N.
-Definition cutter_prelude : list string := ["before = re.escape(before)"%string; "after = re.escape(after)"%string].
-Definition cutter_template : list (bool * list N * string) := [(true, [91]%N, ""%string); (false, []%N, "before"%string); (true, [93; 63]%N, ""%string); (true, [91; 94]%N, ""%string); (false, []%N, "before"%string); (false, []%N, "after"%string); (true, [93; 42]%N, ""%string); (true, [40; 63; 58; 91]%N, ""%string); (false, []%N, "after"%string); (true, [93; 124; 36; 124; 40; 63; 61; 91]%N, ""%string); (false, []%N, "before"%string); (true, [93; 41; 41]%N, ""%string)].
+Definition cutter_prelude : list string := ["before = re.escape(before)"%string; "after = re.escape(after)"%string; "ends = [b'$']"%string; "if after:
+    ends.insert(0, b'[' + after + b']')"%string; "if before:
+    ends.append(b'(?=[' + before + b'])')"%string].
+Definition cutter_template : string := "(b'[' + before + b']?' if before else b'') + (b'[^' + before + after + b']*' if before or after else b'(?s:.)*') + b'(?:' + b'|'.join(ends) + b')'"%string.
 Definition symbol_split_body : string := "assert self._cutter is not None ; for statement in self._cutter.finditer(data):
     if statement.group(0):
         self.parts.append(statement.group(0))
